@@ -84,6 +84,11 @@ def run(ctx):
     if ok:
         iff = getattr(raises[0], "_parent", None)
         ok = isinstance(iff, ast.If)
+        # the test is about the frontier values collected above (not a constant): it names a local that is filled in
+        # a loop over the frontier
+        tested = {x.id for x in ast.walk(iff.test) if isinstance(x, ast.Name)} if ok else set()
+        filled = {norm(c.func.value) for c in calls_in(s) if isinstance(c.func, ast.Attribute) and c.func.attr in ("append", "add")}
+        ok = ok and bool(tested & filled)
         tn = [x for x in cfg.node_of(iff) if x.kind == "test"][0]
         wn = [x for x in cfg.node_of(loops[0]) if x.kind == "test"][0]
         ok = ok and cfg.dominates(tn, cfg.node_of(rets[0])[0]) and cfg.dominates(wn, tn) and iff in s.node.body and loops[0] in s.node.body \
